@@ -302,7 +302,7 @@ def gen_config(rng, profile='C01'):
                 if weak:
                     # weakly curved data (|R_ab| << 1e-8): absolute
                     # tolerances must not decide anything
-                    m['A'] = [[1e-8 * x for x in row] for row in m['A']]
+                    m['A'] = [[1e-7 * x for x in row] for row in m['A']]
             gm, _, _ = st.eval_metric(spec, param)
             if st.admissible(gm):
                 break
@@ -715,8 +715,15 @@ class Engine:
                 return None
             rtol = 3e-5 if cls == 'ON' else 1e-7
             p = {'Kretschmann': 2, 'Weyl_invariants': 2}.get(key, 1)
-            return rtol, rtol * self.world.scale ** p, True
+            # never below the round-off floor of finite differences of the
+            # O(1) background metric (seen on weakly curved data: 2.7e-13 in
+            # s_Ricci_down3 of a spatially constant metric with dz = 0.25)
+            return rtol, max(rtol * self.world.scale ** p,
+                             self.fd_noise()), True
         return 1e-9, 1e-12 * max(1.0, 1.0 / self.world.h ** 2), False
+
+    def fd_noise(self):
+        return 1e-12 * max(1.0, 1.0 / self.world.h ** 2)
 
     # ---- main loop ------------------------------------------------------
     def execute(self, stop_at_first=True, on_op=None):
